@@ -30,7 +30,7 @@ def _race_stage(c):
 CFG = {
         "extra": _race_stage,
         "harness_pkg": "c13",
-        "coq_modules": ["Wrap.C13Judge", "Wrap.SitesProofs"],
+        "coq_modules": ["Wrap.C13Judge", "Wrap.SitesProofs", "Wrap.GrpcFactsProofs"],
         "judge_module": "Wrap.C13Judge",
         "allowed_axioms": [],
         "theorems": ["C13_wrapper_equals_grpc", "C13_no_goroutine_left", "C13_unknown_method_unimplemented",
@@ -38,15 +38,16 @@ CFG = {
                      "C13_send_leaves_sender_object", "C13_metadata_copied_at_set_time", "C13_incoming_metadata_cloned",
                      "C13_every_boundary_site_copies", "C13_method_table_is_service_desc", "C13_model_repairs_match_source",
                      "C13_unwrap_fully_innermost", "C13_unwrap_fully_is_plain", "C13_unwrap_fully_idempotent",
-                     "C13_judge_sound", "C13_judge_complete",
+                     "C13_judge_sound", "C13_judge_complete", "C13_grpc_fact_table_matches_spec", "C13_grpc_assumptions_general",
                      "C13_header_on_return_v0_refuted", "C13_late_set_header_v0_refuted",
                      "C13_context_error_v0_refuted", "C13_send_after_cancel_v0_refuted", "C13_copy_on_receive_v0_refuted",
-                     "C13_trailer_after_cancel_refuted", "C13_response_then_error_refuted", "C13_client_misuse_refuted",
-                     "C13_header_after_context_end_refuted"],
-        "level_text": "Theorem C13_wrapper_equals_grpc (Props/C13.v, closed under the global context): for every call shape, every request metadata, every state of the calling context (live, cancelled, past its deadline) and every scenario of the rendezvous fragment (all client/handler script pairs and all schedules of their local steps in which every send meets a receiver and no header block is in flight when the client's context ends, by cancel or by deadline expiry, at any point, the handler then either finishing at once or going on to set/send headers, set trailers, try to send or receive and return anything), the model of pkg/wrap produces the same client transcript (sends, messages in order, terminal outcome with code and message, header and trailer metadata) and the same handler-side transcript (incl. the request metadata the handler is given) as the gRPC reference, except on three recorded classes (trailer visible after the client's context ended; client-streaming response followed by an error; headers first sent after the client's context ended show in Header()) for which refutation witnesses are proved. Further theorems: every call of the fragment runs to completion with the handler goroutine ended, unknown methods give Unimplemented, any stream description other than the method's shape gives Internal, messages are copied across the boundary and the copy is taken before SendMsg returns (heap model with arbitrary writes in between; the table of boundary sites of stream.go is regenerated from the source on every run and every site is proved to go through its copying function), UnwrapFully returns the innermost object, the judge is complete w.r.t. the models for every case kind. A third recorded class (outside every scenario): SendMsg after CloseSend / a second CloseSend panic in the wrapper. Every run executes ~3000 generated scenarios through wrap.ServerToClient and through a real grpc.Server on bufconn with the same scripted TestApi server, compares the two real transcripts directly (C13_ok) and each with its model in Coq, scribbles over sent/received messages and keeps modifying the metadata maps it passed in or was given (handler and client side, with re-submission of the same map) to detect sharing, reuses every message the moment SendMsg has returned, drives deadline expiry during the call through a context whose end the driver triggers (both transports), and inspects goroutine dumps for pkg/wrap frames after every call; a second harness binary built with -race runs ~900 scenarios through the wrapper (race reports with a pkg/wrap frame are violations).",
-        "level_note": "Trusted: Coq kernel + vm_compute; the hand model of stream.go/wrap.go and the gRPC reference GrpcSpec (an oracle, validated against bufconn only on generated scenarios); the lock-step harness and its canonicaliser (user metadata keys only, status.Convert, context errors and Canceled/DeadlineExceeded as classes). Outside the fragment and not judged: transport buffering and flow control, real timers (a deadline is a context that ends with DeadlineExceeded at a step chosen by the scenario, before or during the call; no timer fires concurrently with a send), more than one response on a non-server-streaming method, what SetHeader/SendHeader/SendMsg/RecvMsg return to a handler after the client's context ended (timing-dependent on a real server; their client-visible effect is judged), a server RecvMsg after that with the client half-closed (random select in stream.go). Go scheduler and channel semantics are taken as rendezvous semantics; goroutine termination is proved for the model and observed by goroutine dumps.",
+                     "C13_trailer_after_cancel_refuted", "C13_response_then_error_refuted",
+                     "C13_header_after_context_end_v0_refuted", "C13_header_after_context_end_equal",
+                     "C13_client_misuse_equal", "C13_client_misuse_v0_refuted"],
+        "level_text": "Theorem C13_wrapper_equals_grpc (Props/C13.v, closed under the global context): for every call shape, every request metadata, every state of the calling context (live, cancelled, past its deadline) and every scenario of the rendezvous fragment (all client/handler script pairs and all schedules of their local steps in which every send meets a receiver and no header block is in flight when the client's context ends, by cancel or by deadline expiry, at any point, the handler then either finishing at once or going on to set/send headers, set trailers, try to send or receive and return anything), the model of pkg/wrap produces the same client transcript (sends, messages in order, terminal outcome with code and message, header and trailer metadata) and the same handler-side transcript (incl. the request metadata the handler is given) as the gRPC reference, except on two recorded classes (trailer visible after the client's context ended; client-streaming response followed by an error) for which refutation witnesses are proved; what a handler's RecvMsg / SendMsg / SendHeader return after it has seen its context end is part of the handler-side transcript (they fail on both transports). Two former classes are repaired in /repo with _v0_refuted witnesses for the code before (c7073e6: SendHeader after the client's context ended published headers; 4da6978: SendMsg after CloseSend / a second CloseSend panicked -- now Internal / nil as on a real connection, C13_client_misuse_equal). Further theorems: every call of the fragment runs to completion with the handler goroutine ended, unknown methods give Unimplemented, any stream description other than the method's shape gives Internal, messages are copied across the boundary and the copy is taken before SendMsg returns (heap model with arbitrary writes in between; the table of boundary sites of stream.go is regenerated from the source on every run and every site is proved to go through its copying function), UnwrapFully returns the innermost object, the judge is complete w.r.t. the models for every case kind. The reference model's assumptions about a real connection are 18 named facts (Wrap/GrpcFacts.v), each with a general lemma about the model and a directed scenario with a hand-written expected transcript in a generated table (Gen/GrpcFacts.v) that is re-proved against the reference model on every run (C13_grpc_fact_table_matches_spec) and executed against the bufconn server on every run (KFact cases: observed = expected). Every run executes ~3000 generated scenarios through wrap.ServerToClient and through a real grpc.Server on bufconn with the same scripted TestApi server, compares the two real transcripts directly (C13_ok) and each with its model in Coq, scribbles over sent/received messages and keeps modifying the metadata maps it passed in or was given (handler and client side, with re-submission of the same map) to detect sharing, reuses every message the moment SendMsg has returned, drives deadline expiry during the call through a context whose end the driver triggers (both transports), and inspects goroutine dumps for pkg/wrap frames after every call; a second harness binary built with -race runs ~900 scenarios through the wrapper (race reports with a pkg/wrap frame are violations).",
+        "level_note": "Trusted: Coq kernel + vm_compute; the hand model of stream.go/wrap.go and the gRPC reference GrpcSpec (an oracle, validated against bufconn only on generated scenarios); the lock-step harness and its canonicaliser (user metadata keys only, status.Convert, context errors and Canceled/DeadlineExceeded as classes). Outside the fragment and not judged: transport buffering and flow control, real timers (a deadline is a context that ends with DeadlineExceeded at a step chosen by the scenario, before or during the call; no timer fires concurrently with a send), more than one response on a non-server-streaming method, what SetHeader returns to a handler after the client's context ended (the wrapper accepts metadata nobody will see, a real server refuses it; no client-visible effect), what follows a refused SendMsg-after-CloseSend (grpc-go aborts the call, the wrapper does not), a server RecvMsg after that with the client half-closed (random select in stream.go). Go scheduler and channel semantics are taken as rendezvous semantics; goroutine termination is proved for the model and observed by goroutine dumps.",
         "trusted_base": [
-            "modelled, not verified: grpc-go client/server behaviour (Wrap/GrpcSpec.v), validated by the three-way comparison against a bufconn server on every run",
+            "modelled, not verified: grpc-go client/server behaviour (Wrap/GrpcSpec.v), validated by the three-way comparison against a bufconn server on every run; its assumptions are the named facts of Wrap/GrpcFacts.v, each run as a directed scenario on bufconn every run",
             "modelled, not verified: Go unbuffered channel and select semantics in pkg/wrap/stream.go as rendezvous steps; proto.Merge / marshal-unmarshal as a content copy (Wrap/Copy.v), observed by scribbling over messages after the call",
             "harness/c13: lock-step driver, scripted TestApi server, transcript canonicaliser",
         ],
